@@ -445,6 +445,26 @@ func (g *G) Top() ap.Item {
 		}
 	case 1:
 		return g.List(0, 1)
+	case 2:
+		if g.T.Bool(1, 2) {
+			// an IRI list (with spare capacity under the knob)
+			n := 1 + g.T.Draw(3)
+			capn := n
+			if g.K.SpareCap {
+				capn = n + 2
+			}
+			l := make(ap.IRIs, 0, capn)
+			for i := 0; i < n; i++ {
+				l = append(l, g.IRI())
+			}
+			if g.K.SpareCap {
+				full := l[:cap(l)]
+				for i := n; i < len(full); i++ {
+					full[i] = "https://spare.example/SENTINEL"
+				}
+			}
+			return l
+		}
 	}
 	return g.StructItem(g.pickKind(), 0, false)
 }
